@@ -38,3 +38,9 @@ def fill(check, na):
           "0..5200 and all 15-bit picture ids are enumerated completely; longer sequences are sampled around the fragment-size multiples.",
           "NAL bodies are Annex-B clean; PyAV trusted for av.Packet.",
           "DESIGN.md 3/C16")
+    check("C10", "invariant + history oracle on the real JitterBuffer: unique arrival ids as packet data, frame integrity / no-reuse / order / PLI-on-discard / occupancy checked after every add(), completeness against the generated stream for benign histories",
+          "Held on the histories generated: every released frame is decoded back to the arrivals it was built from and checked; "
+          "ring occupancy and PLI obligations are evaluated around every add(). Histories are sampled over capacities, prefetch, "
+          "audio/video and fault modes; all arrival permutations of 5-6 packets with <= 1 duplicate at capacity 4 are enumerated.",
+          "Lateness is measured against the highest sequence number seen; ring contents are read from the private _packets attribute for the PLI/occupancy clauses.",
+          "DESIGN.md 3/C10")
